@@ -84,9 +84,11 @@ PROP = dict(
          "x3 densities, multigraph with parallel edges/unsorted rows, 2-row grid, signed/zero edge weights with self loops) x "
          "3..8 vertices x 2..4 parts (striped, blocks, one-sided, random) x 5 vertex-weight families x max_imbalance (None / 0 / "
          "0.05 / 0.25 / 0.5 / 1 / 3 / 8 / random) x rayon pool 1..4 x scheduling policy (uniform, round-robin, adversarial = "
-         "workers frozen inside lock/check/gain windows, bursts, bounded preemption); distinct = distinct (graph, weights, "
+         "workers frozen inside lock/check/gain windows, bursts, bounded preemption); one random case in ten runs with f64 vertex "
+         "weights (fractions of the integer ones): no replay, only the weight-independent clauses are checked on its output; distinct = distinct (graph, weights, "
          "partition, pool, cap, recorded schedule); non-trivial = at least two workers and at least one vertex moved",
-    class_names={0: "Ok, no move", 1: "Ok, moved", 2: "panic", 3: "hang", 4: "outside the contract", 5: "error"},
+    class_names={0: "Ok, no move", 1: "Ok, moved", 2: "panic", 3: "hang", 4: "outside the contract", 5: "error",
+                 6: "f64 weights (outputs only), no move", 7: "f64 weights (outputs only), moved"},
     harness_timeout=2400,
     trusted_base=[
         "axioms: none (every theorem of Properties/C05.v is closed under the global context)",
